@@ -1,3 +1,60 @@
 package main
 
-func run4(f []string) (string, bool) { return "", false }
+import (
+	"sort"
+	"strings"
+
+	"github.com/ja7ad/otp"
+)
+
+// suite results are rendered as text: cfg:<fmtSuite>
+func suiteOut(s otp.Suite, err error) string {
+	if err != nil {
+		return errOut(err)
+	}
+	c := s.Config()
+	if s.String() != c.Raw {
+		return "bad:String()-differs-from-Config().Raw"
+	}
+	if e := s.Validate(); e != nil {
+		return "bad:returned-suite-does-not-validate"
+	}
+	return "cfg:" + fmtSuite(c)
+}
+
+func run4(f []string) (string, bool) {
+	switch f[0] {
+	case "nraw":
+		return suiteOut(otp.NewRawSuite(string(unhx(f[1])))), true
+	case "praw": // the parser alone (hook), also for registered names
+		c, err := otp.VerifParseRawSuite(string(unhx(f[1])))
+		if err != nil {
+			return errOut(err), true
+		}
+		return "cfg:" + fmtSuite(c), true
+	case "nsuite":
+		return suiteOut(otp.NewSuite(parseSuite(f[1]))), true
+	case "known":
+		if otp.IsKnownSuite(string(unhx(f[1]))) {
+			return "ok:n1", true
+		}
+		return "ok:n0", true
+	case "fromraws":
+		return "cfg:" + fmtSuite(otp.SuiteConfigFromRaws(string(unhx(f[1])))), true
+	case "listsuites":
+		// the advertised list must agree with the registry (hook), the known-suite test and lookup
+		names := otp.ListSuites()
+		sort.Strings(names)
+		reg := otp.VerifKnownSuites()
+		if len(reg) != len(names) {
+			return "bad:list-and-registry-differ-in-size", true
+		}
+		for _, n := range names {
+			if _, ok := reg[n]; !ok || !otp.IsKnownSuite(n) {
+				return "bad:listed-name-not-known", true
+			}
+		}
+		return "ok:" + strings.Join(names, ","), true
+	}
+	return run5(f)
+}
